@@ -93,13 +93,15 @@ Proof.
   destruct e.
   all: step_leaves H.
   all: simp_proj.
+  all: repeat match goal with E : (?a =? ?b) = true |- _ => apply N.eqb_eq in E; subst end.
   all: try solve [left; exact Hl].
   (* the resend loop sets DUP on the stored packet *)
   all: try solve [match goal with |- context [store_setdup _ ?q] =>
                     destruct (lookup_setdup _ q _ _ Hl) as [X|X]; [left; exact X|right; left; exact X] end].
   (* Session.Reset *)
   all: try solve [do 4 right; left; eexists; split; [reflexivity|];
-                  first [ match goal with E : k_api (k _) = _ |- _ => rewrite E in L1; exact L1 end
+                  first [ exact L1 | exact L2
+                        | match goal with E : k_api (k _) = _ |- _ => rewrite E in L1; exact L1 end
                         | match goal with E : k_dpc (k _) = _ |- _ => rewrite E in L2; exact L2 end ]].
   (* PUBREC: the PUBREL replaces the PUBLISH *)
   all: try solve [match goal with E : k_ppc (k _) = PRecSave ?i |- _ =>
@@ -123,5 +125,6 @@ Proof.
                     destruct (N.eqb_spec id i) as [->|];
                     [ do 5 right; exists c, rq; split; [first [exact E|reflexivity]|reflexivity]
                     | left; exact Hl ] end].
+  Show.
 Qed.
 
